@@ -123,6 +123,19 @@ def create_load_table(
     return table
 
 
+class VerifStateBudgetExceeded(Exception):
+    """Raised only under PARGLARE_VERIF=1 when table construction exceeds
+    PARGLARE_VERIF_MAX_STATES states (verification hook)."""
+
+
+def _verif_state_budget():
+    if os.environ.get("PARGLARE_VERIF") == "1":
+        budget = os.environ.get("PARGLARE_VERIF_MAX_STATES")
+        if budget:
+            return int(budget)
+    return None
+
+
 def create_table(
     grammar,
     itemset_type=LR_1,
@@ -174,7 +187,13 @@ def create_table(
 
     if debug:
         h_print("Constructing LR automaton states...")
+    _verif_max_states = _verif_state_budget()
     while state_queue:
+        if (
+            _verif_max_states is not None
+            and len(states) + len(state_queue) > _verif_max_states
+        ):
+            raise VerifStateBudgetExceeded(len(states) + len(state_queue))
         state = state_queue.pop(0)
 
         # For each state calculate its closure first, i.e. starting from a so
@@ -720,7 +739,7 @@ class LRItem:
         """
 
         if self.position < len(self.production.rhs):
-            return LRItem(self.production, self.position + 1, self.follow)
+            return LRItem(self.production, self.position + 1, set(self.follow))
 
     @property
     def symbol_at_position(self):
@@ -855,7 +874,7 @@ def first(grammar):
                 rhs_symbol_first = set(first_sets[rhs_symbol])
                 rhs_symbol_first.discard(EMPTY)
                 if rhs_symbol_first.difference(first_sets[nonterm]):
-                    first_sets[nonterm].update(first_sets[rhs_symbol])
+                    first_sets[nonterm].update(rhs_symbol_first)
                     additions = True
                 # If current RHS symbol can't derive EMPTY
                 # this production can't add any more members of
